@@ -11,6 +11,7 @@ import (
 	"go.amzn.com/lambda/appctx"
 	"go.amzn.com/lambda/core/statejson"
 	"go.amzn.com/lambda/interop"
+	"go.amzn.com/lambda/verifhook"
 
 	"github.com/google/uuid"
 
@@ -384,6 +385,7 @@ func (s *registrationServiceImpl) TurnOff() {
 
 // CancelFlows cancels init and invoke flows with error.
 func (s *registrationServiceImpl) CancelFlows(err error) {
+	verifhook.Point("registrations.cancelFlows")
 	s.mutex.Lock()
 	defer s.mutex.Unlock()
 	// The following block protects us from overwriting the error
